@@ -153,7 +153,8 @@ class SmtpRelayClient(RelayPoolClient):
     def _handshake(self):
         assert self.client is not None
         if self.tls_immediately:
-            self.client.encrypt(self.context)
+            with Timeout(self.command_timeout):
+                self.client.encrypt(self.context)
             self._banner()
             self._ehlo()
         else:
